@@ -67,3 +67,26 @@ CLAIMED["C13"] = dict(
         "Allocator = typed object pools (no exact-size heap checking here). Not covered yet: index "
         "encoder/decoder round trip, file-info decoder seek behaviour, xz --list.")
 NOT_APPLICABLE.pop("C13", None)
+CLAIMED["C17"] = dict(
+   text="The real src/xz/file_io.c is executed symbolically with every system call replaced by a nondeterministic stub "
+        "(arbitrary results, errno, short counts) over a ghost file system, a signal possible before any call. The "
+        "safety conditions are asserted AT the unlink(source) call and a crash-point invariant at EVERY system call, "
+        "for all option combinations. This is exactly the property's quantifier (fault sequences x crash points).",
+   note="Bounds: 1 io_write call (quick) / 3 (thorough), <= 2 try-again outcomes per run (fairness), 1032-byte I/O buffer "
+        "in quick. The coder above file_io.c is abstract (its success bit is an input); coder.c/main.c control flow, "
+        "exit statuses and the kernel's fsync semantics are outside. args.c's option invariants are assumed.")
+CLAIMED["C18"] = dict(
+   text="Sink logic of the real file_io.c under the same stubbed system: sparse-file extents (every write lands where its "
+        "bytes belong, only all-zero data becomes a hole, trailing hole materialised, exact final offset), stdout "
+        "regular/pipe/append handling and flag restoration, --no-sparse, and 'no silent truncation' of the input.",
+   note="Bounds: 2 io_write calls (quick) / 3 (thorough), buffer 1032 bytes, buffers all-zero or with one non-zero byte at "
+        "a symbolic position. OUTSIDE: agreement of decoded bytes with liblzma (the library), coder.c/xzdec.c control "
+        "flow and exit status, option parsing, thread counts.")
+CLAIMED["C19"] = dict(
+   text="file_io.c rules decided over arbitrary struct stat values and system-call results: which sources are accepted "
+        "(regular, no setuid/setgid/sticky, single link, O_NOFOLLOW), target creation (O_CREAT|O_EXCL, 0600, unlink only "
+        "with --force), attribute copying (mode never broader, no special bits, owner/group/timestamps).",
+   note="Suffix/naming obligations (suffix.c) and the exit-status lattice are listed in the evidence when present; "
+        "args.c option parsing is outside.")
+for _p in ("C17", "C18", "C19"):
+    NOT_APPLICABLE.pop(_p, None)
